@@ -102,7 +102,7 @@ struct POp
   int k;
 };
 
-enum { NEW, CTOR_DEF, CTOR_COPY, CTOR_CONV, CTOR_MOVE, CTOR_RAW, CTOR_RAWNULL, DTOR, COPY, MOVE, SELFMOVE, CONV, RAW, NUL, INC, DEC, BAD };
+enum { NEW, CTOR_DEF, CTOR_COPY, CTOR_CONV, CTOR_MOVE, CTOR_RAW, CTOR_RAWNULL, DTOR, COPY, MOVE, SELFMOVE, CONV, RAW, NUL, INC, DEC, CTOR_CONVMOVE, CONVMOVE, BAD };
 
 static POp parseOp(const std::vector<std::string> &w)
 {
@@ -121,6 +121,8 @@ static POp parseOp(const std::vector<std::string> &w)
   else if (op == "move") { o.code = MOVE; o.x = L(1); o.y = L(2); }
   else if (op == "selfmove") { o.code = SELFMOVE; o.x = L(1); }
   else if (op == "conv") { o.code = CONV; o.x = L(1); o.y = L(2); }
+  else if (op == "ctor_convmove") { o.code = CTOR_CONVMOVE; o.x = L(1); o.y = L(2); }
+  else if (op == "convmove") { o.code = CONVMOVE; o.x = L(1); o.y = L(2); }
   else if (op == "raw") { o.code = RAW; o.x = L(1); o.k = std::stoi(w.at(2)); }
   else if (op == "null") { o.code = NUL; o.x = L(1); }
   else if (op == "inc") { o.code = INC; o.k = std::stoi(w.at(1)); }
@@ -151,6 +153,19 @@ static void doOp(const POp &o)
   case CTOR_CONV:  // Ref<Base>(const Ref<Node>&): the converting constructor
     new (o.x.p) Ref<Base>(static_cast<const Ref<Node> &>(RD(o.y)));
     g->made[o.x.cell] = true;
+    break;
+  case CTOR_CONVMOVE:
+    // Ref<Base>(std::move(derived handle)); whether the source is left as it was (converting copy) or emptied (a
+    // converting move) is not determined by the property, so the source is then assigned nullptr and only that state
+    // is observed: the object must end up with exactly one more reference (the new base handle) than before minus
+    // the one the source gave up
+    new (o.x.p) Ref<Base>(std::move(RD(o.y)));
+    g->made[o.x.cell] = true;
+    RD(o.y) = static_cast<Node *>(nullptr);
+    break;
+  case CONVMOVE:
+    RB(o.x) = std::move(RD(o.y));
+    RD(o.y) = static_cast<Node *>(nullptr);
     break;
   case CTOR_MOVE:
     if (o.x.d) new (o.x.p) Ref<Node>(std::move(RD(o.y)));
